@@ -36,7 +36,7 @@ func (c13) Assumptions() []string {
 }
 
 var c13Payload = []string{"string", "error", "nil-map write", "nil dereference", "index out of range", "custom struct", "panic(nil)", "1 MiB string", "pointer", "String() panics"}
-var c13Kinds = []string{"unary", "notification", "channel", "reverse", "custom"}
+var c13Kinds = []string{"unary", "notification", "channel", "reverse", "custom", "after-cancel"}
 
 func (c13) Plan(tier string, seed int64) []core.Scenario {
 	var out []core.Scenario
@@ -48,7 +48,7 @@ func (c13) Plan(tier string, seed int64) []core.Scenario {
 		for pk := range c13Payload {
 			for _, ck := range c13Kinds {
 				for _, tr := range []string{"ws", "http"} {
-					if (ck == "channel" || ck == "reverse" || ck == "custom") && tr == "http" {
+					if (ck == "channel" || ck == "reverse" || ck == "custom" || ck == "after-cancel") && tr == "http" {
 						continue
 					}
 					if tier != "thorough" && ck == "custom" && pk%2 == 1 {
@@ -167,6 +167,17 @@ func (c13) server(sc core.Scenario, r *core.R) {
 		o := Go(pt, func() (string, error) { return main.Boom(bg, pt, pk) })
 		if !o.Wait(core.Grace) {
 			r.Violate("panic-call-hang", "%s: the call whose handler panicked never returned", label)
+		} else if ok, why := mentionsPanic(o.Err, pk, pt); !ok {
+			r.Violate("panic-not-reported", "%s: %s (value %q)", label, why, o.Val)
+		}
+	case "after-cancel":
+		// the caller cancels, stays waiting for the answer (as the ws client does), and the handler panics afterwards
+		cctx, ccancel := context.WithCancel(bg)
+		o := Go(pt, func() (string, error) { return main.BoomAfterCancel(cctx, pt, pk) })
+		time.Sleep(40 * time.Millisecond)
+		ccancel()
+		if !o.Wait(core.Grace) {
+			r.Violate("panic-call-hang", "%s: the caller cancelled, the handler then panicked, and the caller was never answered", label)
 		} else if ok, why := mentionsPanic(o.Err, pk, pt); !ok {
 			r.Violate("panic-not-reported", "%s: %s (value %q)", label, why, o.Val)
 		}
